@@ -54,10 +54,12 @@ func runC20(c *core.Ctx) *core.Outcome {
 	cfg.SetSession = t.Chance(1, 2)
 	cfg.CacheSize = 0
 	cfg.First = t.Chance(1, 3)
+	twoWorkers := false
 	if t.Chance(1, 4) {
 		// gateway policy: the session's persister is kept between requests (an engine per request all the same)
 		cfg.KeepPersister = true
 		cfg.SessionViaStore = t.Chance(1, 2)
+		twoWorkers = t.Chance(1, 2) // two workers, each with a kept persister of its own, serve the session in drawn order
 		o.Probes["run_with_kept_persister"]++
 	}
 	cfg.ResetOnEmpty = t.Chance(1, 4) // only exercised while the session is blocked: the model does not know the option
@@ -107,6 +109,9 @@ func runC20(c *core.Ctx) *core.Outcome {
 		wrFault := t.Chance(1, 8)
 		emptyIn := t.Chance(1, 3)
 		loadFault := !cfg.KeepPersister && t.Chance(1, 10)
+		if cfg.KeepPersister && twoWorkers {
+			r.s.Worker = t.Int(2)
+		}
 		t.End()
 		wasEnded, wasBlocked := r.m.Ended, r.m.Blocked
 		if cfg.ResetOnEmpty && i > 0 {
